@@ -1,10 +1,93 @@
 import Vegeta.Go.Proto
-/-! Driver operations of property C09 (ops are named `c09.<name>`). -/
-namespace Vegeta.Driver.C09
-open Vegeta.Go Vegeta.Go.Proto
+import Vegeta.Model.GobFrame
+import Vegeta.Driver.C07
+/-! Driver operations of property C09 (ops are named `c09.<name>`); `c07.*` ops are forwarded.
 
-def handle (_op : String) (args : List String) : Option String :=
-  match _op with
+`c09.*bounds` ops print, for a whole stream, the byte offsets at which the model decoder has
+completed a record (frame), and how the stream ends; the harness derives from them what every
+prefix must decode to. -/
+namespace Vegeta.Driver.C09
+open Vegeta.Go Vegeta.Go.Proto Vegeta.Model.Codec Vegeta.Model.GobFrame
+
+def showFrameEnd : FrameRes → String
+  | .eof => "eof"
+  | .incomplete => "incomplete"
+  | .bad => "bad"
+  | .frame _ _ => "frame"
+
+/-- end offsets of the complete gob messages of `s` -/
+def frameBounds : Nat → Nat → Bytes → List Nat × FrameRes
+  | 0, _, _ => ([], .bad)
+  | fuel+1, off, s =>
+    match parseFrame s with
+    | .frame _ rest =>
+      let o := off + (s.length - rest.length)
+      let q := frameBounds fuel o rest
+      (o :: q.1, q.2)
+    | t => ([], t)
+
+/-- end offsets of the lines the JSON decoder model turns into a result -/
+def jsonBounds : Nat → Nat → Bytes → List Nat × Term
+  | 0, _, _ => ([], .err)
+  | fuel+1, off, s =>
+    if s.isEmpty then ([], .eof) else
+    match splitLine s with
+    | none => ([], .eof)
+    | some (line, rest) =>
+      match decodeJSONLine line with
+      | .ok _ => let q := jsonBounds fuel (off + line.length) rest; ((off + line.length) :: q.1, q.2)
+      | .error e => ([], if e = eEOF then .eof else .err)
+      | .panic => ([], .err)
+
+/-- end offsets (in the CR/LF-normalised stream) of the records the CSV decoder model accepts -/
+def csvBounds : Nat → Nat → Bytes → List Nat × Term
+  | 0, _, _ => ([], .err)
+  | fuel+1, off, s =>
+    match readRecord s with
+    | .eof => ([], .eof)
+    | .err => ([], .err)
+    | .record fs rest =>
+      if fs.length ≠ 12 then ([], .err)
+      else match resultOfRecord fs with
+        | .ok _ =>
+          let o := off + (s.length - rest.length)
+          let q := csvBounds fuel o rest
+          (o :: q.1, q.2)
+        | _ => ([], .err)
+
+def handle (op : String) (args : List String) : Option String :=
+  if op.startsWith "c07." then Vegeta.Driver.C07.handle op args else
+  match op with
+  | "c09.encframe" => do
+    let (b, _) ← bytes.run args
+    pure ("ok " ++ hexEncode (encodeFrame b))
+  | "c09.uint" => do
+    let (n, _) ← nat.run args
+    pure ("ok " ++ hexEncode (encodeUint n))
+  | "c09.framebounds" => do
+    let (b, _) ← bytes.run args
+    let p := frameBounds (b.length + 1) 0 b
+    pure (showNats p.1 ++ " | " ++ showFrameEnd p.2)
+  | "c09.jsonbounds" => do
+    let (b, _) ← bytes.run args
+    let p := jsonBounds (b.length + 1) 0 b
+    pure (showNats p.1 ++ " | " ++ Vegeta.Driver.C07.showTerm p.2)
+  | "c09.csvbounds" => do
+    let (b, _) ← bytes.run args
+    let t := normCRLF b
+    let p := csvBounds (t.length + 1) 0 t
+    pure (showNats p.1 ++ " | " ++ Vegeta.Driver.C07.showTerm p.2)
+  | "c09.csvcalls" => do
+    -- byte counts handed to the writer after each Encode call (model of Write+Flush)
+    let (rs, _) ← (listOf Vegeta.Driver.C07.resultP).run args
+    let sts := rs.foldl (fun (acc : List Nat × EncSt) r =>
+      let st := csvEncodeCall acc.2 r; (acc.1 ++ [st.out.length], st)) ([], {})
+    pure (showNats sts.1 ++ " | " ++ toString sts.2.buf.length)
+  | "c09.jsoncalls" => do
+    let (rs, _) ← (listOf Vegeta.Driver.C07.resultP).run args
+    let sts := rs.foldl (fun (acc : List Nat × EncSt) r =>
+      let st := jsonEncodeCall 0 acc.2 r; (acc.1 ++ [st.out.length], st)) ([], {})
+    pure (showNats sts.1 ++ " | " ++ toString sts.2.buf.length)
   | _ => none
 
 end Vegeta.Driver.C09
